@@ -89,7 +89,7 @@ def run_traced(script, tag):
         return {"records": recs, "info": info, "status": p.returncode, "log": logrecs, "script": script,
                 "stderr": p.stderr.decode("utf-8", "replace")[-2000:]}
     finally:
-        subprocess.run(["pkill", "-KILL", "-f", d], stderr=subprocess.DEVNULL)
+        subprocess.run(["pkill", "-KILL", "-f", d + "/"], stderr=subprocess.DEVNULL)
         shutil.rmtree(d, ignore_errors=True)
 
 
